@@ -7,7 +7,7 @@
 // transforms: rename, invert, swapeq, negform, demorgan, parens, constextract, hoistcond,
 // guard2else, switch2if, if2switch, retlocal, varform, reorder, splitinit, mergeinit, hoistarg,
 // ret2else, splitand, lencmp, incr, boolret, predfunc, rangeidx,
-// elsenest, swapand, kvorder, caseorder, inlinelocal, renamefile
+// elsenest, swapand, kvorder, caseorder, inlinelocal, renamefile, extractblock
 package main
 
 import (
@@ -21,6 +21,7 @@ import (
 	"go/types"
 	"os"
 	"path/filepath"
+	"reflect"
 	"strconv"
 	"strings"
 
@@ -884,6 +885,182 @@ func apply(p *packages.Package, f *ast.File, fd *ast.FuncDecl, tr string) int {
 			n++
 			return true
 		})
+	case "extractblock":
+		// the body of an if / for / range with at least two statements that neither leaves it (return, break, continue,
+		// goto, defer) nor assigns a variable declared outside it becomes a new package-level function
+		imported := map[string]bool{}
+		for _, im := range f.Imports {
+			pth, _ := strconv.Unquote(im.Path.Value)
+			if im.Name == nil {
+				imported[pth] = true
+			}
+		}
+		okType := true
+		qual := func(q *types.Package) string {
+			if q == p.Types {
+				return ""
+			}
+			if !imported[q.Path()] {
+				okType = false
+			}
+			return q.Name()
+		}
+		var bodies []*ast.BlockStmt
+		ast.Inspect(fd.Body, func(nd ast.Node) bool {
+			switch x := nd.(type) {
+			case *ast.FuncLit:
+				return false
+			case *ast.IfStmt:
+				bodies = append(bodies, x.Body)
+			case *ast.ForStmt:
+				bodies = append(bodies, x.Body)
+			case *ast.RangeStmt:
+				bodies = append(bodies, x.Body)
+			}
+			return true
+		})
+		taken := map[*ast.BlockStmt]bool{}
+		for _, b := range bodies {
+			if len(b.List) < 2 {
+				continue
+			}
+			nested := false
+			for t := range taken {
+				if t.Pos() <= b.Pos() && b.End() <= t.End() || b.Pos() <= t.Pos() && t.End() <= b.End() {
+					nested = true
+				}
+			}
+			if nested {
+				continue
+			}
+			bad := false
+			var order []*types.Var
+			seen := map[*types.Var]bool{}
+			inside := func(o types.Object) bool { return o.Pos() >= b.Pos() && o.Pos() < b.End() }
+			ast.Inspect(b, func(m ast.Node) bool {
+				switch x := m.(type) {
+				case *ast.ReturnStmt, *ast.BranchStmt, *ast.DeferStmt, *ast.LabeledStmt, *ast.GoStmt, *ast.FuncLit:
+					bad = true
+				case *ast.AssignStmt:
+					for _, l := range x.Lhs {
+						root := l
+						direct := true
+						for {
+							switch y := root.(type) {
+							case *ast.SelectorExpr:
+								root, direct = y.X, false
+								continue
+							case *ast.IndexExpr:
+								root, direct = y.X, false
+								continue
+							case *ast.StarExpr:
+								root, direct = y.X, false
+								continue
+							case *ast.ParenExpr:
+								root = y.X
+								continue
+							}
+							break
+						}
+						id, ok := root.(*ast.Ident)
+						if !ok {
+							bad = true
+							continue
+						}
+						o := info.Uses[id]
+						if o == nil {
+							o = info.Defs[id]
+						}
+						if o == nil || id.Name == "_" {
+							continue
+						}
+						if inside(o) {
+							continue
+						}
+						if direct {
+							bad = true // assigns an outer variable
+							continue
+						}
+						switch o.Type().Underlying().(type) {
+						case *types.Pointer, *types.Map, *types.Slice:
+						default:
+							bad = true // writes into an outer value
+						}
+					}
+				case *ast.IncDecStmt:
+					bad = true
+				case *ast.UnaryExpr:
+					if x.Op == token.AND {
+						bad = true // address of something: may be an outer variable
+					}
+				case *ast.Ident:
+					v, ok := info.Uses[x].(*types.Var)
+					if !ok || v.IsField() || v.Pkg() != p.Types || v.Parent() == p.Types.Scope() || inside(v) {
+						return true
+					}
+					if !seen[v] {
+						seen[v] = true
+						order = append(order, v)
+					}
+				}
+				return true
+			})
+			if bad {
+				continue
+			}
+			// the implicit object of a type switch clause cannot be passed by its declared name/type reliably: skip blocks using one
+			for _, v := range order {
+				if v.Name() == "" {
+					bad = true
+				}
+			}
+			for nd, o := range info.Implicits {
+				if _, ok := nd.(*ast.CaseClause); ok {
+					if tv, ok := o.(*types.Var); ok && seen[tv] {
+						bad = true
+					}
+				}
+			}
+			if bad {
+				continue
+			}
+			okType = true
+			var params, args []string
+			for _, v := range order {
+				if mentionsLocalType(v.Type(), map[types.Type]bool{}) {
+					okType = false
+				}
+				ts := types.TypeString(v.Type(), qual)
+				params = append(params, v.Name()+" "+ts)
+				args = append(args, v.Name())
+			}
+			if !okType {
+				continue
+			}
+			constN++
+			name := "nfBlock" + strconv.Itoa(constN)
+			var buf bytes.Buffer
+			buf.WriteString("package x\nfunc " + name + "(" + strings.Join(params, ", ") + ") {\n")
+			for _, st := range b.List {
+				format.Node(&buf, p.Fset, st)
+				buf.WriteString("\n")
+			}
+			buf.WriteString("}\n")
+			pf, err := parser.ParseFile(token.NewFileSet(), "", buf.String(), 0)
+			if err != nil {
+				continue
+			}
+			nd2 := pf.Decls[0].(*ast.FuncDecl)
+			stripPosAll(nd2)
+			f.Decls = append(f.Decls, nd2)
+			var ax []ast.Expr
+			for _, a := range args {
+				ax = append(ax, ast.NewIdent(a))
+			}
+			b.List = []ast.Stmt{&ast.ExprStmt{X: &ast.CallExpr{Fun: ast.NewIdent(name), Args: ax}}}
+			taken[b] = true
+			n++
+		}
 	case "elsenest":
 		// else if c {…}  →  else { if c {…} }
 		ast.Inspect(fd.Body, func(nd ast.Node) bool {
@@ -1111,4 +1288,76 @@ func stripPos(n ast.Node) {
 		}
 		return true
 	})
+}
+
+// stripPosAll clears every position field of a freshly parsed declaration.
+func stripPosAll(n ast.Node) {
+	ast.Inspect(n, func(m ast.Node) bool {
+		if m == nil {
+			return true
+		}
+		v := reflect.ValueOf(m)
+		if v.Kind() != reflect.Ptr || v.IsNil() {
+			return true
+		}
+		e := v.Elem()
+		if e.Kind() != reflect.Struct {
+			return true
+		}
+		for i := 0; i < e.NumField(); i++ {
+			fl := e.Field(i)
+			if fl.Type() == reflect.TypeOf(token.Pos(0)) && fl.CanSet() {
+				fl.SetInt(0)
+			}
+		}
+		return true
+	})
+}
+
+// mentionsLocalType: the type refers to a type declared inside a function (which a package-level signature cannot name).
+func mentionsLocalType(t types.Type, seen map[types.Type]bool) bool {
+	if t == nil || seen[t] {
+		return false
+	}
+	seen[t] = true
+	switch x := t.(type) {
+	case *types.Named:
+		o := x.Obj()
+		if o.Pkg() != nil && o.Parent() != nil && o.Parent() != o.Pkg().Scope() {
+			return true
+		}
+		if ta := x.TypeArgs(); ta != nil {
+			for i := 0; i < ta.Len(); i++ {
+				if mentionsLocalType(ta.At(i), seen) {
+					return true
+				}
+			}
+		}
+		return false
+	case *types.Pointer:
+		return mentionsLocalType(x.Elem(), seen)
+	case *types.Slice:
+		return mentionsLocalType(x.Elem(), seen)
+	case *types.Array:
+		return mentionsLocalType(x.Elem(), seen)
+	case *types.Chan:
+		return mentionsLocalType(x.Elem(), seen)
+	case *types.Map:
+		return mentionsLocalType(x.Key(), seen) || mentionsLocalType(x.Elem(), seen)
+	case *types.Signature:
+		for _, tp := range []*types.Tuple{x.Params(), x.Results()} {
+			for i := 0; i < tp.Len(); i++ {
+				if mentionsLocalType(tp.At(i).Type(), seen) {
+					return true
+				}
+			}
+		}
+	case *types.Struct:
+		for i := 0; i < x.NumFields(); i++ {
+			if mentionsLocalType(x.Field(i).Type(), seen) {
+				return true
+			}
+		}
+	}
+	return false
 }
